@@ -12,7 +12,8 @@ LEVEL = 'exploration'
 TECHNIQUE = 'runtime monitoring of enumerated closing-handshake histories: wire, API and event oracles over the tagged operation log'
 BUDGET_S = {'quick': 35, 'thorough': 240}
 REQUIRED = {'all': ['oracle.client_initiated', 'oracle.server_initiated', 'oracle.sends_after_close_checked',
-                    'oracle.sends_during_closing_checked', 'oracle.closed_then_graceful']}
+                    'oracle.sends_during_closing_checked', 'oracle.closed_then_graceful',
+                    'oracle.sends_after_failed_close_write_checked', 'oracle.runs_with_failing_shutdown']}
 RULE = ('enumerated single-threaded histories: server pre-sequence (<=2 of text/binary/ping/fragmented) x server '
         'close behaviour (none / Close first with code 1000+reason, 3000, empty / reply to the client Close '
         'with optional data in between) x server end (drops / stays) x application close() at event X in '
@@ -72,7 +73,13 @@ def cases(tier, seed, i, n):
                             if tier == 'quick' and len(pre) == 2 and k % 4:
                                 continue
                             yield dict(pre=pre, sc=sc, end=end, at=at, args=APP_CLOSE_ARGS[k % len(APP_CLOSE_ARGS)],
-                                       sends=sends, ct=(None, 2.0, 0)[k % 3], seg=('coalesced', 'perframe', 'bytewise')[k % 3])
+                                       sends=sends, ct=(None, 2.0, 0)[k % 3], seg=('coalesced', 'perframe', 'bytewise')[k % 3],
+                                       shut=('notconn' if k % 5 == 0 else None))
+                            if len(pre) <= 1 and at not in ('never', 'closed') and sends in ('every', 'text'):
+                                # the write of the application's Close frame itself fails (once)
+                                yield dict(pre=pre, sc=sc, end=end, at=at, args=APP_CLOSE_ARGS[k % len(APP_CLOSE_ARGS)],
+                                           sends=sends, ct=(None, 2.0, 0)[k % 3], seg='perframe',
+                                           cfault=('timeout', 'reset', 'runtime')[k % 3])
         if tier == 'thorough':
             yield gen.mark('full product: server pre-sequence (<=2) x server close behaviour x end x close() event x sends')
         rnd = random.Random(seed * 6151 + 8)
@@ -80,7 +87,8 @@ def cases(tier, seed, i, n):
             yield dict(pre=[rnd.choice(list(PRE)) for _ in range(rnd.randint(0, 4))], sc=rnd.choice(list(SERVER_CLOSES)),
                        end=rnd.choice(('drop', 'stay')), at=rnd.choice(APP_CLOSE_AT), args=rnd.choice(APP_CLOSE_ARGS),
                        sends=rnd.choice(list(APP_SENDS)), ct=rnd.choice((None, 0, 2.0, 30.0)),
-                       seg=rnd.choice(('coalesced', 'perframe', 'bytewise')))
+                       seg=rnd.choice(('coalesced', 'perframe', 'bytewise')),
+                       shut=rnd.choice((None, None, None, 'notconn', 'reset')))
     return gen.shard(allcases(), i, n)
 
 
@@ -139,9 +147,54 @@ def run_case(case, acc):
             pass
         ws0 = r0.ws
         acc.count2('oracle', 'reconnect_runs')
-    w = H.World(H.hs_server(steps), cuts=cuts, horizon=8.0 if ct else 0.0)
+    faults = {}
+    if case.get('shut'):
+        # the peer tore the connection down as soon as it had sent what it had to send: shutdown() fails
+        # (ENOTCONN / ECONNRESET); the descriptor must be released all the same
+        faults[('shutdown', 0)] = case['shut']
+    w = H.World(H.hs_server(steps), cuts=cuts, horizon=8.0 if ct else 0.0, faults=faults)
+    if case.get('cfault'):
+        w.frame_faults = {8: case['cfault']}
     run = H.drive(w, ws=ws0, connect_kwargs=dict(ping_rate=0, poll=1.0, close_timeout=ct), policy=H.TablePolicy(table))
+    if case.get('cfault'):
+        return judge_close_write_fault(case, run, w, acc)
+    if case.get('shut'):
+        acc.count2('oracle', 'runs_with_failing_shutdown')
     judge(case, run, w, truth, between, scode, sreason, acc)
+
+
+def judge_close_write_fault(case, run, w, acc):
+    """The application's close() could not put its Close frame on the wire (the write failed once).  close()
+    returned normally all the same, so for the application the WebSocket is closing: every later send must raise
+    a WebSocketError and write nothing.  (What the connection does next is C09's business.)"""
+    names = run.names
+    key = monitors.grammar_violation(names, run.end == 'stop') or monitors.run_end_violation(run, w)
+    if key == 'INCONCLUSIVE-budget':
+        acc.inconclusive.append('budget: %r' % (case,))
+        return
+    hit = [h for h in w.faults_hit if h[0] == 'sendall-frame']
+    detail = dict(events=[H.norm(e) for e in run.events if e.name != 'poll'], end=run.end, exc=run.exc, hit=hit,
+                  calls=[(c['ev'], c['name'], c['ok'], c['exc'], len(c['wire'])) for c in run.calls])
+    if not hit:
+        acc.count2('oracle', 'close_write_fault_not_reached')
+        return
+    first = None
+    for n, c in enumerate(run.calls):
+        if c['exc_type'] is not None and not issubclass(c['exc_type'], lerrors.WebSocketError) and key is None:
+            key = 'app-call-raised-non-websocket-error:%s' % c['exc_type'].__name__
+        if first is None:
+            if c['name'] == 'close' and c['ok'] and c['faulted']:
+                first = n
+            continue
+        if c['name'] == 'close':
+            continue
+        acc.count2('oracle', 'sends_after_failed_close_write_checked')
+        if (c['ok'] or c['wire']) and key is None:
+            key = 'send-accepted-after-close:close-frame-write-failed'
+    if key:
+        acc.violation(key, 'C08 %s: %s' % (key, {k: case[k] for k in ('pre', 'sc', 'end', 'at', 'sends', 'ct', 'cfault')}), case, detail)
+    else:
+        acc.cls('cfault|%s|%s|%s' % ('>'.join(n for n in names if n != 'poll'), case['cfault'], case['sc'] + '/' + case['at'] + '/' + case['sends']))
 
 
 def judge(case, run, w, truth, between, scode, sreason, acc):
